@@ -338,8 +338,8 @@ func runConc(prop string, c *ConcCase, ch sched.Chooser) (concStats, []int, stri
 		go func() { wg.Wait(); close(done) }()
 		select {
 		case <-done:
-		case <-time.After(30 * time.Second):
-			return st, nil, "requests did not complete within 30s (deadlock?)"
+		case <-time.After(120 * time.Second):
+			return st, nil, "requests did not complete within 120s (deadlock?)"
 		}
 	}
 	// final sequential reads close the history
